@@ -219,7 +219,8 @@ impl<D: AsMut<[f64]> + AsRef<[f64]>> OrderStatistics<f64> for Data<D> {
                         prev_idx = idx;
                         prev_elt = *elt;
                     }
-                    if (*elt - prev_elt).abs() <= 0.0 {
+                    // plain equality: `inf - inf` is NaN, so a difference test never ties equal infinities
+                    if *elt == prev_elt {
                         continue;
                     }
                     if i == prev + 1 {
